@@ -211,3 +211,30 @@ Fixpoint canon_proj (which : nat) (l : list lev) (run : option N) : list N :=
 Definition run_legacy_proj (which : nat) (conn : list bool) (recv : list crres) (send : list bool) (subs : list bytes)
                            (stop_after : option nat) (fuel : nat) : list N :=
   canon_proj which (rev (ltrace (lrun fuel (linit conn (map rres_of recv) send subs stop_after)))) None.
+
+(* ---- blocking thread session -------------------------------------------------------------------------------- *)
+From HP Require Import BlkSession.
+Definition show_bconn (c : bconn) : string := join ","%string (canon_frames (rev (b_out c)) None).
+Definition show_b11 (s : bsess) : string :=
+  let all := rev (b_past s) ++ match b_cur s with Some c => [c] | None => [] end in
+  (match b_cur s with Some _ => show_nat (List.length (b_past s)) | None => "-"%string end ++ "|" ++
+   show_N (fold_left (fun a x => (a + adler x) mod 4294967296)%N (b_wanted s) 0%N) ++ "|" ++
+   join ";"%string (map show_bconn all) ++ "|" ++ show_nat (List.length (b_stale s)))%string.
+Definition show_b12 (s : bsess) : string :=
+  (join ","%string (map show_msg (b_got s)) ++ "|" ++ join ","%string (map show_msg (b_queue s)) ++ "|" ++ show_nat (b_raised s))%string.
+Inductive cbev := QConn | QData (ch : list seg) | QLost | QSub (c : bytes) | QUnsub (c : bytes) | QPub (c : bytes) (d : list seg) | QRead.
+Definition bev_of (e : cbev) : bev :=
+  match e with
+  | QConn => BConn | QData ch => BData (expand ch) | QLost => BLost | QSub c => BApp (FSub c) | QUnsub c => BApp (FUnsub c)
+  | QPub c d => BApp (FPubl c (expand d)) | QRead => BRead
+  end.
+Fixpoint run_blk_from (ident secret : bytes) (s : bsess) (es : list cbev) : list N :=
+  match es with
+  | [] => []
+  | e :: t => let s' := bstep ident secret s (bev_of e) in
+              adler_str (show_b11 s') :: adler_str (show_b12 s') :: run_blk_from ident secret s' t
+  end.
+Definition run_blk (ident secret : bytes) (es : list cbev) : list N := run_blk_from ident secret bsess0 es.
+Definition run_blk_full (ident secret : bytes) (es : list cbev) : list string :=
+  (fix go s es := match es with [] => [] | e :: t => let s' := bstep ident secret s (bev_of e) in
+                                                     (show_b11 s' ++ " # " ++ show_b12 s')%string :: go s' t end) bsess0 es.
